@@ -5,6 +5,7 @@ import (
 	"errors"
 	"fmt"
 	"io"
+	"os"
 	"testing"
 
 	"filippo.io/age"
@@ -310,6 +311,8 @@ func c13Err(kind string) error {
 		return io.ErrUnexpectedEOF // what net/http, gzip, tar report for truncated input
 	case "closed-pipe":
 		return io.ErrClosedPipe
+	case "timeout":
+		return os.ErrDeadlineExceeded // a deadline on a network connection or a pipe
 	}
 	return nil
 }
@@ -422,6 +425,9 @@ func c13CheckOnceRead(c c13R, fr *hx.FaultReader, file, plain []byte, st *stats.
 			if !bytes.Equal(got, plain) {
 				return pbt.Failf("C13/read-fault-swallowed", "source failed once at offset %d and the stream ended cleanly after %d of %d plaintext bytes", c.At, len(got), len(plain))
 			}
+			if fr.Hit {
+				return pbt.Failf("C13/read-fault-swallowed", "source failed once (%v) at offset %d (%s, armor=%v) and the stream ended cleanly: the read error was never reported", fr.Err, c.At, phase, c.Armor)
+			}
 			return nil
 		}
 		if rerr != nil {
@@ -514,10 +520,13 @@ func c13CheckRead(c c13R, s *pbt.Session) error {
 		return "chunk"
 	}
 	for _, a := range ats {
-		for _, mode := range []int{0, 1, 2, 3, 4} {
+		for _, mode := range []int{0, 1, 2, 3, 4, 5} {
 			cc := c
 			cc.At, cc.WithData, cc.Once = a, mode == 1, mode == 2
-			if mode >= 3 {
+			if mode == 5 {
+				// a timeout that hits once, at any offset: the stream must stay failed, not resume
+				cc.Once, cc.ErrKind = true, "timeout"
+			} else if mode >= 3 {
 				// other error values a real source may fail with; near the end only
 				if a < len(file)-40 {
 					continue
@@ -576,11 +585,14 @@ type c13A struct {
 	Once     bool  `json:"once"`
 	Pieces   []int `json:"pieces"`
 	BufSize  int   `json:"bufSize"`
+	// Lead / Trail: whitespace before the BEGIN line and after the END line (documented tolerances)
+	Lead  string `json:"lead,omitempty"`
+	Trail string `json:"trail,omitempty"`
 }
 
 func c13CheckDearmor(c c13A, st *stats.Run) error {
 	data := hx.PRG(uint64(c.Len), c.Len)
-	text := []byte(refage.Armor(data))
+	text := []byte(c.Lead + refage.Armor(data) + c.Trail)
 	fr := &hx.FaultReader{Data: text, At: c.At, WithData: c.WithData, Once: c.Once, Pieces: c.Pieces}
 	r := armor.NewReader(fr)
 	bufSize := c.BufSize
@@ -611,8 +623,8 @@ func c13CheckDearmor(c c13A, st *stats.Run) error {
 			return pbt.Failf("C13/released-not-prefix", "de-armoring released bytes that are not a prefix of the armored data (fault at %d, once=%v)", c.At, c.Once)
 		}
 		if err == io.EOF {
-			if fr.Hit && !c.Once {
-				return pbt.Failf("C13/read-fault-swallowed", "de-armoring ended cleanly although the source failed permanently at offset %d of %d", c.At, len(text))
+			if fr.Hit {
+				return pbt.Failf("C13/read-fault-swallowed", "de-armoring ended cleanly although the source failed (once=%v) at offset %d of %d: the read error was never reported", c.Once, c.At, len(text))
 			}
 			if !bytes.Equal(got, data) {
 				return pbt.Failf("C13/read-fault-swallowed", "de-armoring ended cleanly after %d of %d bytes (source fault at %d, once=%v)", len(got), len(data), c.At, c.Once)
@@ -707,7 +719,20 @@ func TestC13(t *testing.T) {
 				}
 			}
 		}
-		s.St.Exhaust("de-armoring alone: 7 lengths x every source offset x {permanent fault, fault with data, one-shot fault} x 4 delivery piece sizes", int64(n))
+		for _, lead := range []string{" \n", "\t \r\n  \n", "\n\n   \n"} {
+			for _, trail := range []string{"", " \n\t\n"} {
+				tl := len(lead) + len(refage.Armor(make([]byte, 60))) + len(trail)
+				for at := 0; at <= tl; at++ {
+					for mode := 0; mode < 3; mode++ {
+						if s.Mine(n) {
+							yield(c13A{Len: 60, At: at, WithData: mode == 1, Once: mode == 2, Pieces: [][]int{nil, {1}, {3}}[at%3], BufSize: 100, Lead: lead, Trail: trail})
+						}
+						n++
+					}
+				}
+			}
+		}
+		s.St.Exhaust("de-armoring alone: 7 lengths x every source offset x {permanent fault, fault with data, one-shot fault} x 4 delivery piece sizes; the same with whitespace lines before the BEGIN line and after the END line", int64(n))
 	}, dearmor)
 
 	pbt.Each(s, "read-faults", func(yield func(c13R)) {
